@@ -404,7 +404,9 @@ def poly(db, f, e, depth=0):
         if b and b[0] == "let" and b[1] is not None and depth < 24:
             return poly(db, f, b[1], depth + 1)
         if b and b[0] == "param":
-            return {("param:" + e["name"],): 1}
+            # parameters by POSITION (self excluded), not by name
+            ps_ = [p_.get("lid") for p_ in (f.info.get("params") or []) if isinstance(p_, dict) and p_.get("name") != "self"]
+            return {("param:#%d" % ps_.index(e["lid"]) if e["lid"] in ps_ else "param:" + e["name"],): 1}
     return {("?" + render(e),): 1}
 
 
@@ -414,12 +416,12 @@ def matrix_index(db, ctx):
     rd = db.one("index", "ConnectionMatrix")
     ret = rd.hir.get("expr")
     p_rd = poly(db, rd, ret)
-    want = {("field:num_left", "param:right"): 1, ("param:left",): 1}
+    want = {("field:num_left", "param:#1"): 1, ("param:#0",): 1}            # index(left = #0, right = #1)
     ctx.ob("ConnectionMatrix::index|polynomial", p_rd == want, "reader index = %s (expected right*num_left + left)" % _fmt(p_rd), fn=rd)
     wr = db.view(db.one("write_elem", "ConnBuffer"))
     sites = [n for n, _ in walk(wr.hir) if n.get("k") == "Index" and peel(n["e"]).get("name") == "matrix"]
     polys = sorted((_fmt(poly(db, wr, s["i"])) for s in sites))
-    want_b = {("field:num_left", "param:right"): 2, ("param:left",): 2}
+    want_b = {("field:num_left", "param:#1"): 2, ("param:#0",): 2}
     want_b1 = dict(want_b)
     want_b1[()] = 1
     got = [poly(db, wr, s["i"]) for s in sites]
@@ -431,7 +433,8 @@ def matrix_index(db, ctx):
         arg_order = None
         if uses:
             a = call_args(uses[0])
-            arg_order = [local_name(x) for x in a[1:3]]
+            from ..inline import pcanon
+            arg_order = [pcanon(g, local_name(x), "left", "right") for x in a[1:3]]
         ctx.ob("ConnectionMatrix::%s|via-index" % nm, len(uses) == 1 and arg_order == ["left", "right"],
                "ConnectionMatrix::%s computes its offset through index(%s)" % (nm, arg_order), fn=g)
     ctx.floor(4)
@@ -468,3 +471,71 @@ def reported_cost(db, ctx):
         og = origins(db, g, ret["elems"][1], depth=0)
         ok = any(o[0] == "field" and o[2] == "total_cost" for o in og)
     ctx.ob("Lattice::node|returns-total_cost", ok, "Lattice::node returns (node, VNode.total_cost): %s" % ok, fn=g)
+
+
+_CHOICE_GROUNDS = ("get_word_param", "::cost", "::left_id", "::right_id", "::total_cost", "PathCost", "RightId", "LeftId")
+_TRUNCATING = {"take", "skip", "step_by", "take_while", "skip_while", "map_while", "nth", "last", "next", "find", "rev"}
+
+
+@rule("C02.all-candidates", "every dictionary word the lexicon returns at a reachable position becomes a lattice node: inside the look-up loop of "
+                            "build_lattice, Lattice::insert may be conditioned only on the text (the word-boundary test on the entry's end) — never on "
+                            "a cost, a connection id, the nodes collected so far or the lattice; the candidate stream is not truncated. A 'dominated "
+                            "homograph' shortcut removes the node the minimum-cost path may need (its RIGHT id decides what follows)")
+def all_candidates(db, ctx):
+    from ..loops import iterations, chain, filter_atoms
+    from ..db import deref_all
+    f = db.view(db.one("build_lattice", "LatticeBuilder"), keep=("provide_oovs",))
+    found = 0
+
+    def grounds(e):
+        """why a condition is not a pure text test: the costs / ids / collected nodes it looks at"""
+        out = set()
+        for x, _ in walk(deref_all(e) if isinstance(e, dict) else {}):
+            if x.get("k") == "Field" and x.get("name") in ("node_buffer", "lattice", "matrix"):
+                out.add("self." + x["name"])
+            if is_call(x) and any(s in (callee(x) or "") for s in _CHOICE_GROUNDS):
+                out.add(short_path(callee(x)))
+            if x.get("k") == "Path" and x.get("res") == "local" and "CreatedWords" in (x.get("ty") or ""):
+                out.add("created words")
+            if x.get("k") == "Path" and x.get("res") == "local" and "let_init" not in x and x.get("lid") in param_lids:
+                out.add("word parameter `%s`" % x.get("name"))
+        return out
+    for itn in iterations(f.hir):
+        names, base = chain(db, f, itn["it"])
+        base = peel(base)
+        is_lookup = lambda x: isinstance(x, dict) and is_call(x) and path_ends(callee(x) or "", ("LexiconSet::lookup", "Lexicon::lookup"))
+        at = [i for i, (_, c_) in enumerate(names) if is_lookup(c_)]
+        if at:
+            names = names[at[-1] + 1:]
+        elif not is_lookup(base):
+            continue
+        body = itn["body"]
+        # locals bound (by tuple destructuring) from get_word_param carry costs / ids
+        param_lids = set()
+        for n, _ in walk(body):
+            if n.get("k") == "Let" and "init" in n and any(is_call(x) and "get_word_param" in (callee(x) or "") for x, _ in walk(n["init"])):
+                param_lids |= {b[0] for b in pat_bindings(n["pat"])}
+        inserts = [c for c, _ in walk(body) if is_call(c) and path_ends(callee(c) or "", "Lattice::insert")]
+        found += len(inserts)
+        trunc = sorted({m for m, _ in names} & _TRUNCATING)
+        ctx.ob("build_lattice|lookup-stream-complete", not trunc, "adaptors that cut the stream of looked-up entries short: %s" % trunc, fn=f, site=itn["node"].get("sp"))
+        conds = []
+        for m, call in names:
+            if m in ("filter", "filter_map"):
+                conds += [(a, p) for a, p in (filter_atoms(call) or [({"k": "?", "id": None}, True)])]
+        for c in inserts:
+            bad = set()
+            for cnd, pol in (path_conditions(c["id"], body) or []) + conds:
+                if isinstance(cnd, tuple) and cnd and cnd[0] == "arm":
+                    bad |= grounds(cnd[1])
+                elif isinstance(cnd, dict):
+                    bad |= grounds(cnd)
+            ctx.ob("build_lattice|insert-only-text-conditioned", not bad,
+                   "Lattice::insert of a looked-up word is conditioned on: %s (only the word-boundary test on the text may discard a candidate)" % (sorted(bad) or "text only"),
+                   fn=f, site=c.get("sp"))
+        for n, ps in walk(body):
+            if n.get("k") == "Break" and not any(p.get("k") == "Loop" or (p.get("k") == "Match" and p.get("src") == "ForLoopDesugar") or p.get("k") == "Closure" for p in ps):
+                ctx.ob("build_lattice|no-early-exit", False, "the look-up loop is left early by `break`: later candidates never reach the lattice", fn=f, site=n.get("sp"))
+    if not found:
+        raise AnchorMissing("build_lattice: Lattice::insert inside the lexicon look-up loop")
+    ctx.floor(2)
